@@ -31,7 +31,7 @@ def run(prop, tier, replay=None):
             r["tag"] = tag
             return r
         inst = [("k3s2n8", sk_cfg(3, 2, 5, 8)), ("k2s2n17", sk_cfg(2, 2, 40, 17))] if quick else \
-               [("k3s2n10", sk_cfg(3, 2, 5, 10)), ("k2s2n20", sk_cfg(2, 2, 40, 20)), ("k3s3n7", sk_cfg(3, 3, 4, 7))]
+               [("k3s2n10", sk_cfg(3, 2, 5, 10)), ("k2s2n20", sk_cfg(2, 2, 40, 20)), ("k2s3n10", sk_cfg(2, 3, 4, 10))]
         mc_futs = [ex.submit(mc, t, c) for t, c in inst] if not replay else []
         binary = vlib.build_test_binary(work, "otter")
 
